@@ -14,7 +14,7 @@ PROP = "C17"
 RUNNER = ("RunC17", "run_C17")
 COQ_TARGETS = ["theories/RunC17.vo"]
 SHARD = 120
-AUTHORITY = ("C17_row / C17_ranges / C17_bounds / C17_objective (coq/props/C17.v): the reader model gives, for all "
+AUTHORITY = ("C17_load_render (coq/props/C17.v): load (render ly M) is meaning M by names for every well-formed M and layout; C17_row / C17_ranges / C17_bounds / C17_objective (coq/props/C17.v): the reader model gives, for all "
              "numeric values, the constraints, bounds, kinds and objective the MPS conventions prescribe; the "
              "comparator match_spec checks the SDK's instance against MpsSpec.meaning of the abstract model whose "
              "rendering (MpsSpec.render, evaluated in Coq) the SDK loaded")
@@ -32,8 +32,7 @@ ASSUMPTIONS = ["numbers in generated texts are small dyadic rationals printed as
                "out of scope by the property's wording and not generated: `UP 0` without a lower bound, RANGES with R = 0, "
                "RHS entries for undeclared rows, PL after an upper-bound statement on the same column, duplicate "
                "(column,row) entries, fixed-column-format files"]
-PLANNED = ["C17_load_render (Tier B): load (render layout M) = meaning M for every well-formed M and layout, as a theorem; "
-           "today it is checked per generated case inside Coq (the verdict is `badcase` if the reader model and meaning M differ)"]
+PLANNED = []   # C17_load_render (Tier B) is proved: coq/theories/MpsRoundTrip.v
 PER_CASE_TIMEOUT = 20.0
 
 
